@@ -1016,10 +1016,10 @@ caption_command(vbi_decoder *vbi, struct caption *cc,
 		ch->attr.opacity = (c2 & 1) ? VBI_SEMI_TRANSPARENT : VBI_OPAQUE;
 		ch->attr.background = palette_mapping[(c2 >> 1) & 7];
 
-		/* This is a set-at spacing attribute. */
-		put_char_space(cc, ch);
-
-		return;
+		/* This is a set-at spacing attribute which replaces the
+		   space transmitted in front of it (for decoders which
+		   do not know the code), like the Optional Attributes. */
+		goto backspace_magic;
 
 	case 1:
 		if (c2 & 0x10) {	/* Special Characters	001 c001  011 xxxx */
@@ -1192,6 +1192,11 @@ caption_command(vbi_decoder *vbi, struct caption *cc,
 		case 8:		/* Flash On			001 c10f  010 1000 */
 // not verified
 			ch->attr.flash = TRUE;
+
+			/* 47 CFR 15.119 (h)(1)(i): Flash On is a
+			   spacing attribute like the Mid-Row Codes. */
+			put_char_space(cc, ch);
+
 			return;
 
 		case 1:		/* Backspace			001 c10f  010 0001 */
@@ -1322,11 +1327,14 @@ caption_command(vbi_decoder *vbi, struct caption *cc,
 
 		/* Optional Attributes, backspace magic */
 
+	backspace_magic:
 		if (ch->col > 1 && (ch->line[ch->col - 1].unicode & 0x7F) == 0x20) {
 			vbi_char c = ch->attr;
 
 			c.unicode = 0x0020;
 			ch->line[ch->col - 1] = c;
+
+			word_break(cc, ch, 1);
 		}
 	}
 }
